@@ -115,7 +115,7 @@ func TestC04_Filters(t *testing.T) {
 		q, qc := gen.Query(t, cmds, []gen.QueryClass{"vocab", "vocab", "nlp", "typo", "typo", "fragment", "fragment", "one", "mixed"})
 		opt := gen.Options(t, gen.OptSpec{N: len(cmds), NoNegLimit: true})
 		warmed := warmUp(t, db, cmds, q, opt)
-		path := rapid.SampledFrom([]string{"universal", "universal", "cached", "cached-delta", "cached-delta", "monitored", "legacy-pipeline"}).Draw(t, "path")
+		path := rapid.SampledFrom([]string{"universal", "universal", "cached", "cached-delta", "cached-delta", "monitored", "legacy-pipeline", "cached-switch"}).Draw(t, "path")
 		var res []database.SearchResult
 		switch path {
 		case "universal":
@@ -141,6 +141,23 @@ func TestC04_Filters(t *testing.T) {
 					c.SearchWithOptionsAndCache(q, w)
 				}
 			}
+			res = c.SearchWithOptionsAndCache(q, opt)
+		case "cached-switch":
+			// an answer is cached, the cache is switched off, entries change their platform tags and
+			// pipeline flags IN PLACE and are published again, the cache is switched back on
+			c := database.NewCachedDatabase(db)
+			c.SearchWithOptionsAndCache(q, opt)
+			if rapid.Bool().Draw(t, "switch-off") {
+				c.EnableCache(false)
+			}
+			for i := range db.Commands {
+				if rapid.Bool().Draw(t, "retag") {
+					db.Commands[i].Platform = gen.PlatformList().Draw(t, "new-platform")
+					db.Commands[i].Pipeline = rapid.Bool().Draw(t, "new-pipeline")
+				}
+			}
+			c.UpdateDatabase(db.Commands)
+			c.EnableCache(true)
 			res = c.SearchWithOptionsAndCache(q, opt)
 		case "monitored":
 			m := database.NewMonitoredDatabase(db)
